@@ -280,6 +280,15 @@ var c03Adversarial = []string{
 	"query ($: Int) { title }",
 	"{ keepers { friend { friend { friend { friend { friend { friend { friend { friend { name } } } } } } } } } }",
 	"{ ...F } fragment F on Query { title ... { ...F } }",
+	"{ ghost g2: ghost }",
+	"{ keepers { ghost } k2: keepers { ghost g3: ghost } }",
+	"{ animals { name legs } }",
+	"{ keepers { pets { name ... on Dog { barks owner { name } } } } }",
+	"{ relay(n: 2) r2: relay(n: 1) }",
+	"{ relay(n: 99999999999) }",
+	"{ pick(i: 3) { code name ... on Keeper { code(pad: true) nick nick2: nick(n: null) } } }",
+	"{ pick(i: -1) { __typename } pick2: pick { code } }",
+	"query($i: Int!) { pick(i: $i) { code(pad: $i) } }",
 	"{ ...F } fragment F on Query { title ... on Query { ...F } }",
 	"{ ... { ... { ...F } } } fragment F on Query { ... { ... on Query { ...F } } }",
 	"{ boss { ...K } } fragment K on Keeper { name friend { ... { ...K } } }",
@@ -311,6 +320,17 @@ var c03AdversarialSDL = []string{
 	"\"\"\"", "\"\"\" x", "\"x\" \"y\" type T { a: Int }", "type T { \"d\" }", "type T { \"\"\"d\"\"\" a: Int \"e\" }",
 	"type Query { a: Query } extend type Query { a: Int }", "interface I { a: I } type T implements I { a: T } type T2 implements I { a: [T] }",
 	"type T { a: Int }\ntype T { a: Int }", "type Int { a: Int }", "scalar Int", "enum __E { A }", "input I { a: I! }",
+	// directive loops that are entered from outside the loop, longer loops, a directive used twice
+	"directive @outer(x: Int @inner) on FIELD_DEFINITION\ndirective @inner(y: Int @inner) on ARGUMENT_DEFINITION",
+	"directive @a(x: Int @b) on ARGUMENT_DEFINITION\ndirective @b(y: Int @c) on ARGUMENT_DEFINITION\ndirective @c(z: Int @b) on ARGUMENT_DEFINITION",
+	"directive @a(x: Int @c, y: Int @c) on OBJECT\ndirective @c on ARGUMENT_DEFINITION\ntype T @a { f: Int }",
+	"directive @a(x: Int @b) on OBJECT\ndirective @b(y: Int @a) on ARGUMENT_DEFINITION\ntype T @a(x: 1) { f(g: Int @b(y: 2)): Int }",
+	// directive arguments that are input objects / lists (literals and defaults)
+	"directive @d(in: In) on OBJECT\ninput In { a: Int }\ntype T @d(in: {a: 1}) { f: Int }",
+	"directive @d(in: In = {a: 1}) on OBJECT\ninput In { a: Int }\ntype T @d { f: Int }",
+	"directive @d(l: [Int]) on OBJECT | FIELD_DEFINITION\ntype T @d(l: [1, 2]) { f: Int @d(l: []) }",
+	"directive @d(in: In) on ENUM_VALUE | ENUM\ninput In { a: [In] }\nenum E @d(in: {a: [{a: []}]}) { A @d(in: {}) }",
+	"directive @d(m: [[String]] = [[\"a\"], []]) on SCALAR\nscalar S @d(m: [[\"b\"]])",
 }
 
 // warpLiterals replaces one literal argument value of a request by a value of
@@ -567,6 +587,8 @@ func (c C03) Run(t *tape.Tape, opt core.RunOpt) (res core.Result) {
 	case 6: // sampled input half: adversarial requests, no faults
 		strat := []workload.Strategy{workload.StratReflect, workload.StratInterface, workload.StratAny, workload.StratMixed}[t.Draw(4)]
 		q := workload.GenZoo(t)
+		// an application that forgot to register the implementers of an interface
+		q.NoRegister = t.Bool(1, 3)
 		if strat == workload.StratMixed {
 			workload.DrawMixed(t, q)
 		}
@@ -585,8 +607,13 @@ func (c C03) Run(t *tape.Tape, opt core.RunOpt) (res core.Result) {
 		}
 		for i := 0; i < 4; i++ {
 			// generated valid requests with one argument value of the wrong shape
-			r := workload.GenRequest(t, workload.ReqOpt{Strat: strat, MultiOp: false, VarInLiteral: strat != workload.StratReflect, ShuffleArgs: true, MaxDepth: 3})
-			docs = append(docs, warpLiterals(t, r.Src))
+			r := workload.GenRequest(t, workload.ReqOpt{Strat: strat, MultiOp: false, VarInLiteral: strat != workload.StratReflect, ShuffleArgs: true, MaxDepth: 3,
+				Ghost: true, Relay: true, Pick: true, Nick: true})
+			if t.Bool(1, 3) {
+				docs = append(docs, r.Src) // as generated (fields without a Go counterpart selected repeatedly, nested requests)
+			} else {
+				docs = append(docs, warpLiterals(t, r.Src))
+			}
 		}
 		sample["family"], sample["documents"], sample["strategy"] = "adversarial requests (sampled input half)", docs, strat.String()
 		res.Sig = core.Hash64("adv", strat.String(), strings.Join(docs, "\x00"))
@@ -597,6 +624,13 @@ func (c C03) Run(t *tape.Tape, opt core.RunOpt) (res core.Result) {
 				resp := z.Root.ResolveString(d, "", vars)
 				var w iosim.Writer
 				_ = ggql.WriteJSONValue(&w, resp, 0)
+			})
+			// what an application does with a parsed request before resolving it
+			ctx.guard("Executable.SetContextRecursive/String", "", d, func() {
+				if exe, err := z.Root.ParseExecutableString(d); err == nil && exe != nil {
+					exe.SetContextRecursive(1)
+					_ = exe.String()
+				}
 			})
 			res.SubSigs = append(res.SubSigs, core.Hash64("adv", strat.String(), d))
 		}
